@@ -22,6 +22,10 @@ class ConvergenceCriteria:
         self.compute_mc_paths = compute_mc_paths
 
 
+# split of the mean-square error rmse^2 between the squared bias (theta) and the variance of the estimator (1 - theta)
+THETA = 0.25
+
+
 def compute_mc_paths_giles(rmse: float, vl: np.array, cl: np.array) -> np.array:
     """Same as in Giles papers
     :param rmse: root-mean square error
@@ -29,7 +33,7 @@ def compute_mc_paths_giles(rmse: float, vl: np.array, cl: np.array) -> np.array:
     :param cl: cost of each level l
     :return: the updated number of Monte-Carlo paths for each level l
     """
-    theta = 0.25
+    theta = THETA
     cl_zerocost = cl.copy()
     cl_zerocost[
         cl_zerocost == 0
@@ -48,7 +52,7 @@ def criteria_giles(alpha: float, ml: np.array, rmse: float) -> bool:
     :return: true if the convergence criteria has been met
     """
     rem = max(ml[-1], ml[-2] / 2**alpha, ml[-3] / 2 ** (2 * alpha)) / (2**alpha - 1)
-    return rem <= rmse / np.sqrt(2)
+    return rem <= np.sqrt(THETA) * rmse
 
 
 def criteria_run_to_maximum_level(alpha: float, ml: np.array, rmse: float) -> bool:
